@@ -94,9 +94,13 @@ def build_args(it, c, fn, cls, case=None):
     return vals
 
 
-def generate(reg, key, budget=None):
-    """explore all paths of the function; returns FuncRun with raw obligations"""
+def generate(reg, key, budget=None, parallel=None):
+    """explore all paths of the function; returns FuncRun with raw obligations.
+    parallel = (workers, finish): after a short sequential phase the pending decision prefixes are handed to
+    forked children; each child explores its share, calls finish(obligations) (discharge) and sends the JSON
+    records back; they are collected in run.remote"""
     run = FuncRun(key)
+    run.remote = []
     t0 = time.time()
     c = reg.contracts[key]
     try:
@@ -176,7 +180,13 @@ def generate(reg, key, budget=None):
                 ctx.oblige("canary", f"{key}/{tag}canary", F(), {"clause": "False (must be refuted)"})
                 return outcome
 
-            obs = ex.explore(run_one)
+            if parallel:
+                workers, finish = parallel
+                obs = ex.explore(run_one, stop_when=lambda pending, done: pending >= 2 * workers or (done >= 24 and pending >= 2))
+                if ex.pending:
+                    run.remote += _explore_children(ex, run_one, ex.pending, workers, finish, budget)
+            else:
+                obs = ex.explore(run_one)
             run.obligations += obs
             run.paths += ex.paths
             run.terminals += len(ex.terminals)
@@ -190,6 +200,67 @@ def generate(reg, key, budget=None):
         run.error = f"RecursionError: {e}"
     run.gen_s = time.time() - t0
     return run
+
+
+def _explore_children(ex, run_one, pending, workers, finish, budget):
+    """fork `workers` children over the pending prefixes; returns their result dicts"""
+    import multiprocessing as mp
+    ctx = mp.get_context("fork")
+    chunks = [pending[i::workers] for i in range(workers)]
+    chunks = [c for c in chunks if c]
+    procs = []
+    for chunk in chunks:
+        parent, child = ctx.Pipe(duplex=False)
+
+        def work(conn, chunk=chunk):
+            res = {"records": [], "canary": 0, "paths": 0, "solver_calls": 0, "origins": [], "error": None}
+            try:
+                sub = Explorer(**(budget or {}))
+                obs = sub.explore(run_one, work=chunk)
+                res["paths"] = sub.paths
+                res["solver_calls"] = sub.solver_calls
+                res["origins"] = sorted(sub.origins)
+                if sub.false_assumes:
+                    res["error"] = f"Unsupported: assumption evaluated to constant False: {sub.false_assumes[:3]}"
+                fin = finish(obs)
+                res["records"] = fin["records"]
+                res["canary"] = fin["canary"]
+            except (Unsupported, Budget, ExtractError) as e:
+                res["error"] = f"{type(e).__name__}: {e}"
+            except BaseException as e:  # noqa: BLE001
+                res["error"] = "crash: " + repr(e)
+                res["traceback"] = traceback.format_exc()
+            try:
+                conn.send(res)
+            finally:
+                conn.close()
+                os._exit(0)
+
+        p = ctx.Process(target=work, args=(child,))
+        p.start()
+        child.close()
+        procs.append((p, parent))
+    ex._children = procs
+    return procs
+
+
+def collect_children(procs, deadline):
+    out = []
+    for p, conn in procs:
+        left = max(1.0, deadline - time.time()) if deadline else None
+        res = None
+        if conn.poll(left):
+            try:
+                res = conn.recv()
+            except EOFError:
+                res = None
+        if res is None:
+            p.kill()
+            res = {"records": [], "canary": 0, "paths": 0, "solver_calls": 0, "origins": [],
+                   "error": "Budget: a path-exploration worker gave no answer in time (killed)"}
+        p.join(2)
+        out.append(res)
+    return out
 
 
 def _check_raise(it, sp, c, key, tag, pr, vals, closure_env):
@@ -557,22 +628,11 @@ def verify_lemma(reg, lem, timeout_s=10.0):
     return out
 
 
-def verify_function(reg, key, timeout_s=10.0, budget=None, wall_budget_s=None):
-    """generate + discharge; returns a JSON-able dict"""
-    t0 = time.time()
-    deadline = t0 + wall_budget_s if wall_budget_s else None
-    try:
-        run = generate(reg, key, budget)
-    except Exception as e:  # noqa: BLE001
-        return {"key": key, "error": "crash: " + "".join(traceback.format_exception_only(type(e), e)).strip(),
-                "traceback": traceback.format_exc(), "obligations": [], "paths": 0, "crash": True,
-                "fingerprint": None, "wall_s": time.time() - t0}
-    out = {"key": key, "error": run.error, "paths": run.paths, "fingerprint": run.fingerprint,
-           "obligations": [], "solver_calls": run.solver_calls, "gen_s": round(run.gen_s, 3),
-           "assumption_origins": sorted(run.assumption_origins)}
+def _records(obs, timeout_s, deadline):
+    """canary count + discharge of a list of obligations -> JSON-able records"""
     canary_refuted = 0
     real = []
-    for ob in run.obligations:
+    for ob in obs:
         if ob.kind == "canary":
             # vacuity guard: `False` must not be provable on this path, i.e. the path is feasible
             s = z3.Solver()
@@ -585,6 +645,7 @@ def verify_function(reg, key, timeout_s=10.0, budget=None, wall_budget_s=None):
                 canary_refuted += 1
             continue
         real.append(ob)
+    recs = []
     for ob, res in zip(real, discharge_all(real, timeout_s, deadline)):
         rec = {
             "name": ob.label, "kind": ob.kind, "clause": ob.info.get("clause", ""), "line": ob.line,
@@ -600,7 +661,42 @@ def verify_function(reg, key, timeout_s=10.0, budget=None, wall_budget_s=None):
                 rec["inputs_error"] = res["inputs_error"]
         if res["verdict"] == "unknown":
             rec["reason"] = res.get("reason", "")
-        out["obligations"].append(rec)
-    out["canary_refuted"] = canary_refuted
+        recs.append(rec)
+    return {"records": recs, "canary": canary_refuted}
+
+
+def verify_function(reg, key, timeout_s=10.0, budget=None, wall_budget_s=None, workers=None):
+    """generate + discharge; returns a JSON-able dict"""
+    t0 = time.time()
+    deadline = t0 + wall_budget_s if wall_budget_s else None
+    if workers is None:
+        workers = int(os.environ.get("PYVC_PATH_WORKERS", "4"))
+    par = (workers, lambda obs: _records(obs, timeout_s, deadline)) if workers and workers > 1 else None
+    try:
+        run = generate(reg, key, budget, parallel=par)
+    except Exception as e:  # noqa: BLE001
+        return {"key": key, "error": "crash: " + "".join(traceback.format_exception_only(type(e), e)).strip(),
+                "traceback": traceback.format_exc(), "obligations": [], "paths": 0, "crash": True,
+                "fingerprint": None, "wall_s": time.time() - t0}
+    out = {"key": key, "error": run.error, "paths": run.paths, "fingerprint": run.fingerprint,
+           "obligations": [], "solver_calls": run.solver_calls, "gen_s": round(run.gen_s, 3),
+           "assumption_origins": sorted(run.assumption_origins)}
+    local = _records(run.obligations, timeout_s, deadline)
+    out["obligations"] = local["records"]
+    out["canary_refuted"] = local["canary"]
+    origins = set(run.assumption_origins)
+    if run.remote:
+        for res in collect_children(run.remote, (deadline + 20) if deadline else None):
+            out["obligations"] += res["records"]
+            out["canary_refuted"] += res["canary"]
+            out["paths"] += res["paths"]
+            out["solver_calls"] += res["solver_calls"]
+            origins |= set(res.get("origins", []))
+            if res.get("error") and not out["error"]:
+                out["error"] = res["error"]
+                if res.get("traceback"):
+                    out["traceback"] = res["traceback"]
+                    out["crash"] = True
+    out["assumption_origins"] = sorted(origins)
     out["wall_s"] = round(time.time() - t0, 3)
     return out
